@@ -83,6 +83,10 @@ def main():
         rep.violation({"differs": ",".join(which), "key": o and o["key"].split(".")[0]},
                       {"observation": o, "run_cfg": run["cfg"], "first_observation": first})
     rep.sample({"run": runs[0]["cfg"], "observations": runs[0]["obs"][:3]})
+    n_err = sum(1 for x in runs for o in x["obs"] if str(o.get("c", "")).startswith("E"))
+    rep.add_cov(observations_where_compilation_raised=n_err)
+    rep.cov["compile_errors_by_key"] = sorted({o["key"] + ":" + o["c"] for x in runs for o in x["obs"]
+                                               if str(o.get("c", "")).startswith("E") and o["key"].endswith(("LIB", "LIBS", "@factory"))})[:20]
     rep.add_cov(states=r.distinct, transitions=r.generated, traces_validated_against_impl=len(runs), runs=len(runs),
                 observations=n_obs, evaluations=n_obs, distinct_nontrivial=len(keys),
                 variants=len(variants))
